@@ -5,7 +5,9 @@ use marwood::syntax::ReplHighlighter;
 use serde_json::json;
 
 const BASE: [&str; 11] = ["(", ")", "[", "]", "#(", "\"", ";", "\n", " ", "a", "#\\("];
-const EXT: [&str; 12] = ["(", ")", "[", "]", "#(", "\"", ";", "\n", " ", "a", "#\\(", "é"];
+// multi-byte characters: a precomposed letter, a combining mark (an identifier character that a terminal draws onto the
+// cell before it), a wide character
+const EXT: [&str; 14] = ["(", ")", "[", "]", "#(", "\"", ";", "\n", " ", "a", "#\\(", "é", "\u{301}", "日"];
 
 fn is_open(t: &Token) -> bool {
     matches!(t.token_type, TokenType::LeftParen | TokenType::HashParen)
@@ -20,16 +22,9 @@ fn tok_at(tokens: &[Token], idx: usize) -> Option<usize> {
 
 /// Reference: the span to underline, if any.
 fn reference(tokens: &[Token], cursor: usize) -> Option<(usize, usize)> {
-    let at = match tok_at(tokens, cursor) {
-        Some(i) => Some(i),
-        None => {
-            if cursor > 0 {
-                tok_at(tokens, cursor - 1)
-            } else {
-                None
-            }
-        }
-    }?;
+    // the bracket at the cursor, or else the bracket just before it (whatever else stands at the cursor)
+    let bracket_at = |idx: usize| tok_at(tokens, idx).filter(|i| is_open(&tokens[*i]) || is_close(&tokens[*i]));
+    let at = bracket_at(cursor).or_else(|| if cursor > 0 { bracket_at(cursor - 1) } else { None })?;
     let t = &tokens[at];
     if is_open(t) {
         let mut depth = 0usize;
@@ -216,7 +211,7 @@ pub fn run(ctx: &Ctx) -> i32 {
         ReplHighlighter::new,
         |h, acc, i| {
             let text = decode(i, &EXT, l_ext);
-            if !text.contains('é') {
+            if text.is_ascii() {
                 return;
             }
             for cursor in 0..=text.len() + 2 {
@@ -305,7 +300,7 @@ pub fn run(ctx: &Ctx) -> i32 {
     );
     let acc = Acc::merge(Acc::merge(Acc::merge(acc1, acc2), acc3), acc4);
     rep.rule = format!(
-        "every string of <= {} lexemes over {:?} with every cursor 0..=len+2 ({} strings); every string of <= {} lexemes over that alphabet plus 'é' containing 'é', cursors 0..=len+2 (including inside the 2-byte character) and far cursors up to usize::MAX; far cursors on all strings of <= 4 lexemes; typing histories: every string of 2..{} lexemes given to one highlighter instance prefix by prefix (cursor at the end) and then with the last lexeme deleted, the answers for every cursor of the last two texts compared with a fresh instance's. A case (text,cursor) is non-trivial when the reference matcher finds a partner to underline; cases are distinct because the lexeme code is uniquely decodable.",
+        "every string of <= {} lexemes over {:?} with every cursor 0..=len+2 ({} strings); every string of <= {} lexemes over that alphabet plus 'é', the combining mark U+0301 and the wide character '日' containing at least one of them, cursors 0..=len+2 (including inside the multi-byte characters) and far cursors up to usize::MAX; far cursors on all strings of <= 4 lexemes; typing histories: every string of 2..{} lexemes given to one highlighter instance prefix by prefix (cursor at the end) and then with the last lexeme deleted, the answers for every cursor of the last two texts compared with a fresh instance's. A case (text,cursor) is non-trivial when the reference matcher finds a partner to underline; cases are distinct because the lexeme code is uniquely decodable.",
         l_base, BASE, n1, l_ext, l_typed
     );
     rep.extra("strings_base", json!(n1));
